@@ -192,10 +192,15 @@ def run_tfm(rec, sh, tier, seed):
             # a second, weaker bump elsewhere so that several seqlets per example occur
             s2 = (s + L // 2) % (L - bw)
             X[(bi + 1) % n, s2:s2 + bw] -= sg * 1.0
+            huge = bi % 4 == 1
+            if huge:
+                # large dynamic range: a peak four orders of magnitude above everything else near the start of every example (a reported
+                # attribution is the sum over the seqlet's own window, whatever precedes it on the track)
+                X[:, 2:8] += 3e4 * (1 if bi % 8 == 1 else -1)
             Xt = torch.from_numpy(X.astype(numpy.float32))    # the caller's quantile step requires float32
             Xc = Xt.clone()
             for fl in flanks:
-                case = dict(fn="tfmodisco_seqlets", L=L, n=n, window_size=w, flank=fl, bump=list(b), second_bump_start=s2, seed=seed)
+                case = dict(fn="tfmodisco_seqlets", L=L, n=n, window_size=w, flank=fl, bump=list(b), second_bump_start=s2, seed=seed, huge_peak_at_2_8=huge)
                 st, df = call(tfmodisco_seqlets, Xt, window_size=w, flank=fl)
                 n_calls += 1
                 if st != "ok":
